@@ -18,7 +18,7 @@ MODELS_USED = set()
 
 
 def _has_sym(x, depth=0):
-    if isinstance(x, SymBase):
+    if isinstance(x, (SymBase, SymNd)):
         return True
     if depth < 3 and isinstance(x, (tuple, list)):
         return any(_has_sym(e, depth + 1) for e in x)
@@ -91,6 +91,113 @@ def _m_isclose(a, b, rtol=1e-05, atol=1e-08, equal_nan=False):
     return abs(a - b) <= (atol + rtol * abs(b))
 
 
+class SymNd:
+    """Tiny model of an ndarray holding proxies: a (nested) python list with the handful of numpy
+    operations the code base applies to small index arrays (assumed numpy meaning)."""
+
+    def __init__(self, data):
+        self.data = data
+
+    @property
+    def ndim(self):
+        return 2 if self.data and isinstance(self.data[0], list) else 1
+
+    @property
+    def shape(self):
+        if self.ndim == 2:
+            return (len(self.data), len(self.data[0]))
+        return (len(self.data),)
+
+    def _reduce(self, op, axis):
+        from .builtins_ import _max, _min
+
+        f = _min if op == "min" else _max
+        if self.ndim == 1:
+            return f(self.data)
+        if axis == 0:
+            return SymNd([f([row[j] for row in self.data]) for j in range(len(self.data[0]))])
+        if axis == 1:
+            return SymNd([f(row) for row in self.data])
+        return f([x for row in self.data for x in row])
+
+    def min(self, axis=None):
+        MODELS_USED.add("ndarray.min")
+        return self._reduce("min", axis)
+
+    def max(self, axis=None):
+        MODELS_USED.add("ndarray.max")
+        return self._reduce("max", axis)
+
+    def tolist(self):
+        return [list(r) if isinstance(r, list) else r for r in self.data]
+
+    def __getitem__(self, i):
+        r = self.data[i]
+        return SymNd(r) if isinstance(r, list) else r
+
+    def __len__(self):
+        return len(self.data)
+
+    def __iter__(self):
+        return iter(self.tolist())
+
+    @property
+    def T(self):
+        if self.ndim == 1:
+            return self
+        return SymNd([list(col) for col in zip(*self.data)])
+
+
+def _m_asarray(x, dtype=None, **k):
+    if isinstance(x, SymNd):
+        return x
+    if isinstance(x, (list, tuple)):
+        rows = [list(r) if isinstance(r, (list, tuple)) else r for r in x]
+        return SymNd(rows)
+    raise Unsupported("numpy.asarray of a symbolic non-list value")
+
+
+def _m_searchsorted(a, v, side="left", sorter=None):
+    """Assumed meaning (numpy doc): for a nondecreasing 1-d array `a`, the index k such that
+    a[j] <= v for j < k and a[j] > v for j >= k (side='right'); `<`/`>=` for side='left'.
+    That `a` is nondecreasing is an OBLIGATION at the call site."""
+    import z3
+
+    from .seq import SymSeq
+    from .sym import SymInt, ctx, term_of
+
+    if not isinstance(a, SymSeq) or sorter is not None:
+        raise Unsupported("numpy.searchsorted on this argument")
+    c = ctx()
+    arr = a.arrs[0]
+    n = a.n
+    j = z3.Int(c.fresh_name("j"))
+    c.check(z3.ForAll([j], z3.Implies(z3.And(j >= 0, j < n - 1), z3.Select(arr, j) <= z3.Select(arr, j + 1))), "searchsorted-argument-is-sorted", kind="library-pre")
+    vt = term_of(v)[0]
+    k = z3.Int(c.fresh_name("ss"))
+    if side == "right":
+        below, above = (lambda x: x <= vt), (lambda x: x > vt)
+    else:
+        below, above = (lambda x: x < vt), (lambda x: x >= vt)
+    c.assume(z3.And(k >= 0, k <= n), fact=True)
+    c.assume(z3.ForAll([j], z3.Implies(z3.And(j >= 0, j < k), below(z3.Select(arr, j)))), fact=True)
+    c.assume(z3.ForAll([j], z3.Implies(z3.And(j >= k, j < n), above(z3.Select(arr, j)))), fact=True)
+    return SymInt(k)
+
+
+def _m_diff(a, *args, **kw):
+    import z3
+
+    from .seq import SymSeq
+
+    if not isinstance(a, SymSeq) or args or kw:
+        raise Unsupported("numpy.diff on this argument")
+    j = z3.Int("j!diff")
+    arr = a.arrs[0]
+    n = z3.If(a.n >= 1, a.n - 1, z3.IntVal(0))
+    return SymSeq("list", a.elem, n, [z3.Lambda([j], z3.Select(arr, j + 1) - z3.Select(arr, j))])
+
+
 _MODELS = {
     "floor": _m_floor,
     "ceil": _m_ceil,
@@ -99,6 +206,10 @@ _MODELS = {
     "isfinite": _m_isfinite,
     "clip": _m_clip,
     "isclose": _m_isclose,
+    "asarray": _m_asarray,
+    "array": _m_asarray,
+    "searchsorted": _m_searchsorted,
+    "diff": _m_diff,
 }
 
 
